@@ -369,6 +369,65 @@ def run_map(mask, opi):
 
 
 # ---------------------------------------------------------------------------
+def _mutating_set_ops():
+    return [i for i, (_n, _f, mut) in enumerate(SET_OPS) if mut]
+
+
+def refine2(a: int, op1: int, op2: int) -> bool:
+    """
+    pre: 0 <= a < SHARD["na"]
+    pre: 0 <= op1 < SHARD["nops1"] and 0 <= op2 < SHARD["nops"]
+    post: __return__
+    """
+    # K = 2 on a node set: a mutating operation, then any operation, each compared with the built-in set
+    coll = SHARD["coll"]
+    x = pick(a, SHARD["na"])
+    mut = _mutating_set_ops()
+    o1 = mut[SHARD["op_lo"] + pick(op1, SHARD["nops1"])]
+    o2 = pick(op2, SHARD["nops"])
+    with untraced():
+        why, name = run_set2(coll, x, o1, o2)
+    if why is not None:
+        return fail("%s pre-state %s, %s: %s" % (coll, x, name, why))
+    count("scenarios")
+    return done()
+
+
+def run_set2(kind, mask, o1, o2):
+    """two operations in sequence; the model set carries over"""
+    owner, other, X, attr, pool = _set_world(kind, mask)
+    coll = getattr(owner, kind)
+    model = {X[i] for i in range(2) if mask >> i & 1}
+    names = []
+    for opi in (o1, o2):
+        name, op, _m = SET_OPS[opi]
+        names.append(name)
+        ri = outcome(lambda: op(coll, X))
+        if name == "pop()" and ri[0] == "ok":
+            if not any(ri[1] is q for q in model):
+                return "pop() returned a non-member", ";".join(names)
+            model.discard(ri[1])
+        else:
+            rm = outcome(lambda: op(model, X))
+            if ri[0] != rm[0] or (ri[0] == "exc" and ri[1] != rm[1]):
+                return "outcome %r, built-in set gives %r" % (ri[:1] + (ri[1] if ri[0] == "exc" else "",), rm[:1]), ";".join(names)
+            if ri[0] == "ok" and isinstance(rm[1], (bool, int)) and ri[1] != rm[1]:
+                return "result %r, built-in set gives %r" % (ri[1], rm[1]), ";".join(names)
+        got = sorted(id(x) for x in coll)
+        exp = sorted(id(x) for x in model)
+        if got != exp:
+            return "contents differ from the built-in set after %s" % name, ";".join(names)
+        for i in range(4):
+            par = getattr(X[i], attr)
+            member = any(X[i] is z for z in coll)
+            if member != (par is owner):
+                return "x%d ownership out of step" % i, ";".join(names)
+        why = F.check_forest(pool) or F.check_cache(pool, [pool[0]])
+        if why:
+            return why, ";".join(names)
+    return None, ";".join(names)
+
+
 def signature(coll, name, why):
     kind = name
     for ch in "0123456789":
